@@ -243,6 +243,41 @@ def native(seed=0):
                 bad.append(dict(what="stored induced potential of a device translated in place does not reproduce the sum over its stored currents", relative_mismatch=mism, tolerance=tol_t))
     except Exception as e:  # noqa
         bad.append(dict(what=f"translated-device screening case raised {type(e).__name__}: {str(e)[:120]}"))
+    # parameter sweep on ONE mesh: the device is solved, its layer changed (in place, and through a copy sharing the Mesh object), and solved again;
+    # each run's stored potential must reproduce the sum over ITS stored currents with ITS own Lambda (an independent numpy double sum in SI units)
+    try:
+        from scipy.constants import mu_0
+        dev_s = tdgl.Device("s", layer=tdgl.Layer(coherence_length=0.5, london_lambda=0.5, thickness=0.1, gamma=1), film=tdgl.Polygon("film", points=box(3, 2)), length_units="um")
+        dev_s.make_mesh(max_edge_length=0.5, smooth=5)
+        tol_s = 1e-4
+        with tempfile.TemporaryDirectory() as td:
+            for leg, (how, lam_) in enumerate((("first", 0.5), ("layer changed in place", 0.25), ("copy of the device with another layer", 1.0))):
+                d_run = dev_s
+                if how == "layer changed in place":
+                    dev_s.layer.london_lambda = lam_
+                elif leg == 2:
+                    d_run = dev_s.copy()
+                    d_run.layer.london_lambda = lam_
+                sol_s = tdgl.solve(d_run, tdgl.SolverOptions(solve_time=0.3, output_file=os.path.join(td, f"s{leg}.h5"), include_screening=True, screening_tolerance=tol_s, save_every=50,
+                                                             field_units="mT", current_units="uA"), applied_vector_potential=0.6)
+                n += 1
+                um = 1e-6
+                xi_ = d_run.coherence_length.magnitude
+                m_ = d_run.mesh
+                K_si = sol_s.current_density.to("A / m").magnitude
+                cen = m_.edge_mesh.centers * xi_ * um
+                pts = m_.sites * xi_ * um
+                rr = np.linalg.norm(cen[:, None, :] - pts[None, :, :], axis=2)
+                A_si = mu_0 / (4 * np.pi) * np.einsum("jk,j,ij->ik", K_si, m_.areas * xi_ ** 2 * um ** 2, 1 / rr)
+                A0_si = (d_run.A0).to("T * m").magnitude if hasattr(d_run.A0, "to") else float(d_run.A0)
+                got = sol_s.tdgl_data.induced_vector_potential * A0_si
+                mism = float(np.abs(got - A_si).max() / (np.abs(A_si).max() + 1e-300))
+                if mism > 50 * tol_s:
+                    bad.append(dict(what="stored induced potential does not reproduce (mu0/4pi) sum K a / r of the stored currents", history=how, london_lambda=lam_,
+                                    relative_mismatch=mism, tolerance=tol_s))
+                    break
+    except Exception as e:  # noqa
+        bad.append(dict(what=f"parameter-sweep screening case raised {type(e).__name__}: {str(e)[:160]}"))
     # nothing to screen (no field, no current): the loop must converge at once, not fail
     with tempfile.TemporaryDirectory() as td:
         n += 1
